@@ -34,8 +34,11 @@ impl Intersect for Line2 {
         //
         let u_b = other.dy() * self.dx() - other.dx() * self.dy();
         // Where u_b == 0 the two lines are parallel. In this case we don't need any further checks
-        // since we are only concerned with lines that cross, parallel is fine.
-        if u_b == 0. {
+        // since we are only concerned with lines that cross, parallel is fine. The comparison is
+        // relative to the lengths of the lines, since for parallel lines u_b is rounding noise
+        // rather than exactly zero, and dividing by it gives meaningless positions.
+        let lengths = f64::hypot(self.dx(), self.dy()) * f64::hypot(other.dx(), other.dy());
+        if u_b.abs() <= 1e-12 * lengths {
             return false;
         }
 
@@ -46,8 +49,10 @@ impl Intersect for Line2 {
 
         let ua = ua_t / u_b;
         let ub = ub_t / u_b;
-        // Should the points ua, ub both lie on the interval [0, 1] the lines intersect.
-        if 0. <= ua && ua <= 1. && 0. <= ub && ub <= 1. {
+        // Should the points ua, ub both lie on the interval [0, 1] the lines intersect. Lines
+        // which meet exactly at an end point have to be found irrespective of rounding.
+        let eps = 1e-11;
+        if -eps <= ua && ua <= 1. + eps && -eps <= ub && ub <= 1. + eps {
             return true;
         }
         false
